@@ -40,7 +40,7 @@ ValidTok(kind) ==
     [] kind = "oper" -> {"op_and", "op_or"}
 InvalidTok(kind) ==
   CASE kind = "pos" -> {"zero", "neg", "nan", "inf", "str", "none", "list", "arr0d", "arr1d", "arr1", "list1", "a30", "qpix"}
-    [] kind = "posn" -> {"zero", "neg", "nan", "str", "none", "arr1d", "narr1", "a30"}
+    [] kind = "posn" -> {"zero", "neg", "nan", "str", "none", "arr1d", "narr1", "a30", "i2", "f3_5"}      \* a count: an integer, at least 3
     [] kind = "pix" -> {"parr3", "parr1", "p2d", "sA", "tuple", "none", "str", "f1_5"}
     [] kind = "pix1d" -> {"pA", "p2d", "sarr3", "list", "none"}
     [] kind = "sky" -> {"sarr3", "sarr1", "pA", "tuple", "none", "q2deg"}
